@@ -824,6 +824,65 @@ func (e *Env) call(n *ast.CallExpr) *Value {
 			}
 			return intLeaf(fmt.Sprintf("(select (select %s %s) %s)", x.heapArr(v, "MV|sync.Map|$val", "Int"), mref, kt))
 		})
+	case "dbhas", "dbget", "dbcount", "dbwrites":
+		// key-value store model: dbhas(db,key), dbget(db,key), dbcount(db, firstByte), dbwrites(db)
+		dbv := e.eval(n.Args[0])
+		db := x.dbRef(dbv)
+		var kt string
+		if len(n.Args) > 1 {
+			kt = e.eval(n.Args[1]).Term
+		}
+		return e.withView(func(v *State) *Value {
+			switch fname {
+			case "dbhas":
+				return boolLeaf(fmt.Sprintf("(select (select %s %s) %s)", x.heapArr(v, "MD|dbm", "Bool"), db, kt))
+			case "dbget":
+				return leaf(types.NewSlice(types.Typ[types.Uint8]), fmt.Sprintf("(select (select %s %s) %s)", x.heapArr(v, "MV|dbm|val", "Int"), db, kt))
+			case "dbcount":
+				return intLeaf(fmt.Sprintf("(select (select %s %s) %s)", x.heapArr(v, "MV|dbm|cnt", "Int"), db, kt))
+			}
+			return intLeaf(fmt.Sprintf("(select %s %s)", x.heapArr(v, "F|dbm|$writes", "Int"), db))
+		})
+	case "imethod":
+		// imethod(x, Name, args...): result of the pure interface method Name on x (deterministic in receiver and arguments)
+		recv := e.eval(n.Args[0])
+		mname := identName(n.Args[1])
+		if recv.K != KIface || recv.T == nil {
+			e.fail("imethod: not an interface value")
+		}
+		obj, _, _ := types.LookupFieldOrMethod(recv.T, true, e.pkgOf(recv.T), mname)
+		mf, ok := obj.(*types.Func)
+		if !ok {
+			e.fail("imethod: no method %s", mname)
+		}
+		sig := mf.Type().(*types.Signature)
+		terms := x.flatten(recv)
+		all := []*Value{recv}
+		for _, a := range n.Args[2:] {
+			v := e.eval(a)
+			all = append(all, v)
+			terms = append(terms, x.flatten(v)...)
+		}
+		rt := sig.Results().At(0).Type()
+		if fc := x.eng.contractOfMethod(mf, recv.T); fc != nil && fc.Pure {
+			return mkValue(rt, func(l Leaf) string {
+				idx := 0
+				for i, ll := range leaves(rt) {
+					if ll.Path == l.Path {
+						idx = i
+					}
+				}
+				fn := fmt.Sprintf("pure_%s_%d_%d", smtName(fc.PkgPath+"."+fc.Key), 0, idx)
+				x.globalDecl(fn, fmt.Sprintf("(declare-fun %s (%s) %s)", fn, strings.TrimSpace(strings.Repeat("Int ", len(terms))), l.Sort))
+				return fmt.Sprintf("(%s %s)", fn, strings.Join(x.intTerms(terms, all), " "))
+			})
+		}
+		full := mf.FullName()
+		return mkValue(rt, func(l Leaf) string {
+			fn := fmt.Sprintf("im_%s_%d_%s", smtName(full), 0, smtName(l.Path))
+			x.globalDecl(fn, fmt.Sprintf("(declare-fun %s (%s) %s)", fn, strings.TrimSpace(strings.Repeat("Int ", len(terms))), l.Sort))
+			return fmt.Sprintf("(%s %s)", fn, strings.Join(x.intTerms(terms, all), " "))
+		})
 	case "sha256sum":
 		a := e.eval(n.Args[0])
 		return leaf(types.NewSlice(types.Typ[types.Uint8]), fmt.Sprintf("(hash_sha256 %s)", a.Term))
